@@ -180,8 +180,10 @@ Lemma tie_idl_ParsePackage_text : f_idl_ParsePackage_text =
 Proof. (left; reflexivity) || (right; reflexivity). Qed.
 
 Lemma tie_idl_nodifyActionList_text : f_idl_nodifyActionList_text =
-  "func nodifyActionList(nodes []signature.Node) signature.Node { var itf InterfaceType itf.Methods = make(map[uint32]Method) itf.Signals = make(map[uint32]Signal) itf.Properties = make(map[uint32]Property) var customAction = uint32(100) for _, node := range nodes { if err, ok := node.(error); ok { return err } if method, ok := node.(Method); ok { if method.ID == 0 && method.Name != """" { method.ID = customAction customAction++ } itf.Methods[method.ID] = method } else if signal, ok := node.(Signal); ok { if signal.ID == 0 { signal.ID = customAction customAction++ } itf.Signals[signal.ID] = signal } else if property, ok := node.(Property); ok { if property.ID == 0 { property.ID = customAction customAction++ } itf.Properties[property.ID] = property } else { return fmt.Errorf("""", reflect.TypeOf(node), node) } } return &itf }"%string.
-Proof. reflexivity. Qed.
+  "func nodifyActionList(nodes []signature.Node) signature.Node { var itf InterfaceType itf.Methods = make(map[uint32]Method) itf.Signals = make(map[uint32]Signal) itf.Properties = make(map[uint32]Property) var customAction = uint32(100) for _, node := range nodes { if err, ok := node.(error); ok { return err } if method, ok := node.(Method); ok { if method.ID == 0 && method.Name != """" { method.ID = customAction customAction++ } itf.Methods[method.ID] = method } else if signal, ok := node.(Signal); ok { if signal.ID == 0 { signal.ID = customAction customAction++ } itf.Signals[signal.ID] = signal } else if property, ok := node.(Property); ok { if property.ID == 0 { property.ID = customAction customAction++ } itf.Properties[property.ID] = property } else { return fmt.Errorf("""", reflect.TypeOf(node), node) } } return &itf }"%string \/
+  f_idl_nodifyActionList_text =
+  "func nodifyActionList(nodes []signature.Node) signature.Node { var itf InterfaceType itf.Methods = make(map[uint32]Method) itf.Signals = make(map[uint32]Signal) itf.Properties = make(map[uint32]Property) var customAction = uint32(100) for _, node := range nodes { if err, ok := node.(error); ok { return err } if method, ok := node.(Method); ok { if !method.explicitID && method.Name != """" { method.ID = customAction customAction++ } itf.Methods[method.ID] = method } else if signal, ok := node.(Signal); ok { if !signal.explicitID { signal.ID = customAction customAction++ } itf.Signals[signal.ID] = signal } else if property, ok := node.(Property); ok { if !property.explicitID { property.ID = customAction customAction++ } itf.Properties[property.ID] = property } else { return fmt.Errorf("""", reflect.TypeOf(node), node) } } return &itf }"%string.
+Proof. (left; reflexivity) || (right; reflexivity). Qed.
 
 Lemma tie_idl_generateMethod_lits : f_idl_generateMethod_lits =
   ["parse parms of %s: %s"%string; "parse return of %s: %s"%string; ""%string; ""%string; ","%string; ": "%string; "-> "%string; " "%string; "v"%string; ""%string; "	fn %s(%s) %s//uid:%d
